@@ -1063,4 +1063,11 @@ pub fn mulmod""", expect=r'semantics:ADDMOD:(add512|no-other)'),
         Ok(())
     }
 }""", expect=r'tolerated-failures:.*check_balance_invariants|solvency'),
+
+ # ---------------- K16 state updates do not disappear (generic)
+ dict(id='K16-verifreg-proposal-ids-not-stored', pid=['C09'], file='actors/verifreg/src/lib.rs', old="""            st.remove_data_cap_proposal_ids = proposal_ids.flush()?;
+            Ok((verifier_1_id, verifier_2_id))""", new="""            proposal_ids.flush()?;
+            Ok((verifier_1_id, verifier_2_id))""", expect=r'updates-present:verifreg:State.remove_data_cap_proposal_ids'),
+ dict(id='K16-power-cron-epoch-not-advanced', pid=['C05'], file='actors/power/src/lib.rs', old="""            st.first_cron_epoch = rt_epoch + 1;
+            st.cron_event_queue""", new="""            st.cron_event_queue""", expect=r'updates-present:power:State.first_cron_epoch|first_cron_epoch'),
 ]
